@@ -6,6 +6,8 @@
 package harness
 
 import (
+	"github.com/mark3labs/flyt"
+	"reflect"
 	"encoding/json"
 	"fmt"
 	"hash/fnv"
@@ -481,6 +483,36 @@ func writeFuzzReplay(id string, sc any, v Verdict) string {
 // could not set up the situation it wanted to observe; this is never reported as a violation.
 func inconclusive(format string, args ...any) Verdict {
 	return Verdict{Violation: "HARNESS-INCONCLUSIVE: " + fmt.Sprintf(format, args...), Fingerprint: "harness"}
+}
+
+// embedded returns the exported (possibly promoted) field `name` of the struct obj points to, if
+// there is one. The harness reaches the embedded *BaseNode / *CustomNode / *BatchNode of flyt's
+// builder types this way only, so that it still builds against an implementation that does not
+// export them (those routes are conveniences of today's API, not something a property states).
+func embedded(obj any, name string) (f reflect.Value, ok bool) {
+	defer func() {
+		if recover() != nil {
+			f, ok = reflect.Value{}, false
+		}
+	}()
+	v := reflect.ValueOf(obj)
+	if v.Kind() != reflect.Ptr || v.IsNil() || v.Elem().Kind() != reflect.Struct {
+		return reflect.Value{}, false
+	}
+	f = v.Elem().FieldByName(name)
+	if !f.IsValid() || !f.CanSet() {
+		return reflect.Value{}, false
+	}
+	return f, true
+}
+
+func embeddedBase(obj any) *flyt.BaseNode {
+	if f, ok := embedded(obj, "BaseNode"); ok {
+		if b, isBase := f.Interface().(*flyt.BaseNode); isBase {
+			return b
+		}
+	}
+	return nil
 }
 
 // goroutinesRemain reports whether a bubble failure is only "goroutines outlived the case".
